@@ -1,16 +1,20 @@
 import SvgVerif.Model.Lexer
-/-! # C01 / C02 — the tokenizer reads back what `Path.d()` writes (and its usual respellings)
+/-! # C01 / C02 — the tokenizer reads back every legal spelling of a token list
 
-`tokenize_rendered`: let a string be built from a token list by writing each command letter and each numeral in
-turn, with any number of separators (spaces, commas) anywhere between tokens — in particular exactly as `Path.d()`
-lays out its result (`'M {},{}'.format(...)` pieces joined by spaces) — where every numeral has the shape of
-Python's `repr(float)` / `str(int)`: `-? digits (. digits)? (e [+-]? digits)?`, and a numeral is followed by a
-separator, a command letter or the end of the string.  Then the model of `Path._tokenize_path`
-(`COMMAND_RE.split` + `FLOAT_RE.findall`) returns exactly that token list: no numeral is split, merged with its
-neighbour, or has a sign or exponent detached.  Core Lean only (no Mathlib), no axioms beyond `propext`.
+`tokenize_rendered`: let a string be built from a token list by writing each command letter and each number in
+turn, where
+* every number has the shape of the SVG grammar — `sign? (digits | digits "." digits? | "." digits) exponent?` with
+  `sign ∈ {-, +}` and `exponent = (e|E) sign? digits` — which includes everything Python's `repr(float)` /
+  `str(int)` produce, numbers with a leading dot (`.5`), with a trailing dot (`1.`, `1.e2`) and with `E` / `+`;
+* any number of separators (spaces, commas) may stand between tokens, in particular exactly as `Path.d()` lays
+  out its result;
+* a number may also be followed directly by a command letter, by the SIGN of the next number
+  (sign-as-separator, `1-2`), or — when it has a fractional part or an exponent itself — by the leading DOT of
+  the next number (dot-as-separator, `1.5.5`, `1e2.5`).
+Then the model of `Path._tokenize_path` (`COMMAND_RE.split` + `FLOAT_RE.findall`) returns exactly that token list:
+no number is split, merged with its neighbour, or has a sign or exponent detached.  Core Lean only (no Mathlib).
 
-Not covered (tied by the exhaustive correspondence only): sign-as-separator (`1-2`), dot-as-separator
-(`1.5.5`), and arc flags without separators (finding F5). -/
+Not covered (a known finding, F5): arc flags written without separators. -/
 namespace SvgVerif.Props.C02Lexer
 open SvgVerif.Model.Lexer
 
@@ -21,9 +25,6 @@ def Digits (s : List Char) : Prop := ∀ c ∈ s, isDigit c = true
 
 /-- the character does not continue a numeral: not a digit, `.`, `e`, `E` -/
 def Stops (c : Char) : Prop := isDigit c = false ∧ c ≠ '.' ∧ c ≠ 'e' ∧ c ≠ 'E'
-
-/-- the rest of the input cannot extend a numeral that ends here -/
-def Boundary (s : List Char) : Prop := s = [] ∨ ∃ c r, s = c :: r ∧ Stops c
 
 theorem takeDigits_append (ds rest : List Char) (hd : Digits ds)
     (hr : rest = [] ∨ ∃ c r, rest = c :: r ∧ isDigit c = false) : takeDigits (ds ++ rest) = (ds, rest) := by
@@ -36,12 +37,6 @@ theorem takeDigits_append (ds rest : List Char) (hd : Digits ds)
     have hdd : isDigit d = true := hd d (by simp)
     have := ih (fun c hc => hd c (by simp [hc]))
     simp only [List.cons_append, takeDigits, hdd, if_true, this]
-
-/-- the shape of `repr(float)` / `str(int)` -/
-structure PyNum (n : List Char) : Prop where
-  ex : ∃ sg d1 fr ex : List Char, n = sg ++ d1 ++ fr ++ ex ∧ (sg = [] ∨ sg = ['-']) ∧ Digits d1 ∧ d1 ≠ [] ∧
-    (fr = [] ∨ ∃ d2, fr = '.' :: d2 ∧ Digits d2 ∧ d2 ≠ []) ∧
-    (ex = [] ∨ ∃ es ed, ex = 'e' :: (es ++ ed) ∧ (es = [] ∨ es = ['-'] ∨ es = ['+']) ∧ Digits ed ∧ ed ≠ [])
 
 theorem stops_of_sep (c : Char) (h : isSep c = true) : Stops c := by
   unfold isSep at h
@@ -71,103 +66,189 @@ theorem digit_ne (c : Char) (h : isDigit c = true) : c ≠ '.' ∧ c ≠ 'e' ∧
 theorem stripSign_digit (a : Char) (r : List Char) (ha : isDigit a = true) : stripSign (a :: r) = ([], a :: r) := by
   simp [stripSign, digit_not_sign a ha]
 
+theorem stops_of_sign (c : Char) (h : isSign c = true) : Stops c := by
+  unfold isSign at h
+  simp only [Bool.or_eq_true, beq_iff_eq] at h
+  rcases h with rfl | rfl <;> exact ⟨by decide, by decide, by decide, by decide⟩
+
+/-- the four parts of a number: sign, integer digits, fraction (with its dot), exponent -/
+structure NumParts where
+  sg : List Char
+  d1 : List Char
+  fr : List Char
+  ex : List Char
+
+def NumParts.text (p : NumParts) : List Char := p.sg ++ p.d1 ++ p.fr ++ p.ex
+
+/-- the number grammar of SVG path data -/
+structure SvgNum (p : NumParts) : Prop where
+  hsg : p.sg = [] ∨ p.sg = ['-'] ∨ p.sg = ['+']
+  hd1 : Digits p.d1
+  hfr : p.fr = [] ∨ ∃ d2, p.fr = '.' :: d2 ∧ Digits d2
+  hne : p.d1 ≠ [] ∨ ∃ d2, p.fr = '.' :: d2 ∧ d2 ≠ []
+  hex : p.ex = [] ∨ ∃ e es ed, (e = 'e' ∨ e = 'E') ∧ p.ex = e :: (es ++ ed) ∧
+    (es = [] ∨ es = ['-'] ∨ es = ['+']) ∧ Digits ed ∧ ed ≠ []
+
+/-- what may directly follow a number: the end, or a character that is no digit and no `e`/`E`, and that is a
+dot only if the number itself has a fraction or an exponent (otherwise the dot would be read as its own) -/
+def Follow (p : NumParts) (rest : List Char) : Prop :=
+  rest = [] ∨ ∃ c r, rest = c :: r ∧ isDigit c = false ∧ c ≠ 'e' ∧ c ≠ 'E' ∧ (c = '.' → p.fr ≠ [] ∨ p.ex ≠ [])
+
 /-- the exponent part and what follows, scanned after a complete mantissa `pre` -/
-theorem exponent_scan (pre ex rest : List Char) (hb : Boundary rest)
-    (hex : ex = [] ∨ ∃ es ed, ex = 'e' :: (es ++ ed) ∧ (es = [] ∨ es = ['-'] ∨ es = ['+']) ∧ Digits ed ∧ ed ≠ []) :
+theorem exponent_scan (pre ex rest : List Char)
+    (hb : rest = [] ∨ ∃ c r, rest = c :: r ∧ isDigit c = false ∧ c ≠ 'e' ∧ c ≠ 'E')
+    (hex : ex = [] ∨ ∃ e es ed, (e = 'e' ∨ e = 'E') ∧ ex = e :: (es ++ ed) ∧ (es = [] ∨ es = ['-'] ∨ es = ['+']) ∧
+      Digits ed ∧ ed ≠ []) :
     exponent pre (ex ++ rest) = (pre ++ ex, rest) := by
   have hbd : rest = [] ∨ ∃ c r, rest = c :: r ∧ isDigit c = false := by
-    rcases hb with h | ⟨c, r, h, hs⟩
+    rcases hb with h | ⟨c, r, h, hs, _⟩
     · exact Or.inl h
-    · exact Or.inr ⟨c, r, h, hs.1⟩
-  rcases hex with rfl | ⟨es, ed, rfl, hes, hed, hne⟩
+    · exact Or.inr ⟨c, r, h, hs⟩
+  rcases hex with rfl | ⟨e, es, ed, he, rfl, hes, hed, hne⟩
   · simp only [List.nil_append, List.append_nil]
-    rcases hb with rfl | ⟨c, r, rfl, hs⟩
+    rcases hb with rfl | ⟨c, r, rfl, _, h1, h2⟩
     · rfl
-    · have h1 : (c == 'e' || c == 'E') = false := by simp [hs.2.2.1, hs.2.2.2]
+    · have h1 : (c == 'e' || c == 'E') = false := by simp [h1, h2]
       simp only [exponent, h1, Bool.false_eq_true, if_false]
   · obtain ⟨d, ds, rfl⟩ := List.exists_cons_of_ne_nil hne
     have hd : isDigit d = true := hed d (by simp)
     have htd := takeDigits_append (d :: ds) rest hed hbd
+    have hee : (e == 'e' || e == 'E') = true := by rcases he with rfl | rfl <;> decide
     rcases hes with rfl | rfl | rfl
-    · simp only [List.nil_append, List.cons_append, exponent, beq_self_eq_true, Bool.true_or, if_true,
-        stripSign_digit d _ hd]
+    · simp only [List.nil_append, List.cons_append, exponent, hee, if_true, stripSign_digit d _ hd]
       simp only [List.cons_append] at htd
       simp [htd]
     · have hs : stripSign ('-' :: ((d :: ds) ++ rest)) = (['-'], (d :: ds) ++ rest) := by
         simp [stripSign, isSign]
       simp only [List.cons_append, List.nil_append] at hs ⊢
-      simp only [exponent, beq_self_eq_true, Bool.true_or, if_true, hs]
+      simp only [exponent, hee, if_true, hs]
       simp only [List.cons_append] at htd
       simp [htd]
     · have hs : stripSign ('+' :: ((d :: ds) ++ rest)) = (['+'], (d :: ds) ++ rest) := by
         simp [stripSign, isSign]
       simp only [List.cons_append, List.nil_append] at hs ⊢
-      simp only [exponent, beq_self_eq_true, Bool.true_or, if_true, hs]
+      simp only [exponent, hee, if_true, hs]
       simp only [List.cons_append] at htd
       simp [htd]
 
-/-- the mantissa of a numeral, followed by its exponent part and a boundary -/
-theorem mantissa_scan (d1 fr tail : List Char) (hd1 : Digits d1) (hne1 : d1 ≠ [])
-    (hfr : fr = [] ∨ ∃ d2, fr = '.' :: d2 ∧ Digits d2 ∧ d2 ≠ [])
-    (htail : tail = [] ∨ ∃ c r, tail = c :: r ∧ isDigit c = false ∧ c ≠ '.') :
+/-- the mantissa of a number, followed by `tail` (its exponent part and whatever comes after) -/
+theorem mantissa_scan (d1 fr tail : List Char) (hd1 : Digits d1)
+    (hfr : fr = [] ∨ ∃ d2, fr = '.' :: d2 ∧ Digits d2)
+    (hne : d1 ≠ [] ∨ ∃ d2, fr = '.' :: d2 ∧ d2 ≠ [])
+    (htail : tail = [] ∨ ∃ c r, tail = c :: r ∧ isDigit c = false ∧ (c = '.' → fr ≠ [])) :
     mantissa (d1 ++ fr ++ tail) = some (d1 ++ fr, tail) := by
   have htd : tail = [] ∨ ∃ c r, tail = c :: r ∧ isDigit c = false := by
     rcases htail with h | ⟨c, r, h, h1, _⟩
     · exact Or.inl h
     · exact Or.inr ⟨c, r, h, h1⟩
-  rcases hfr with rfl | ⟨d2, rfl, hd2, hne2⟩
-  · simp only [List.append_nil]
+  rcases hfr with rfl | ⟨d2, rfl, hd2⟩
+  · -- no fraction: d1 is non-empty and the tail does not start with a dot
+    have hne1 : d1 ≠ [] := by
+      rcases hne with h | ⟨d2, h, _⟩
+      · exact h
+      · simp at h
+    simp only [List.append_nil]
     unfold mantissa
     rw [takeDigits_append d1 tail hd1 htd]
-    simp only
+    simp only [ne_eq, hne1, not_false_eq_true, if_true]
     rcases htail with rfl | ⟨c, r, rfl, _, hdot⟩
-    · simp [hne1]
+    · rfl
     · split
       · rename_i r2 heq
         simp only [List.cons.injEq] at heq
-        exact absurd heq.1 hdot
-      · simp [hne1]
+        exact absurd rfl (hdot heq.1)
+      · rfl
   · have h1 : takeDigits (d1 ++ ('.' :: d2 ++ tail)) = (d1, '.' :: d2 ++ tail) :=
       takeDigits_append d1 _ hd1 (Or.inr ⟨'.', d2 ++ tail, rfl, by decide⟩)
     have h2 := takeDigits_append d2 tail hd2 htd
     unfold mantissa
     simp only [List.append_assoc, List.cons_append] at h1 ⊢
     rw [h1]
-    simp only [h2, ne_eq, hne2, not_false_eq_true, if_true]
+    by_cases hd1e : d1 = []
+    · have hne2 : d2 ≠ [] := by
+        rcases hne with h | ⟨d2', h, h'⟩
+        · exact absurd hd1e h
+        · simp only [List.cons.injEq, true_and] at h; subst h; exact h'
+      subst hd1e
+      simp only [ne_eq, not_true_eq_false, if_false, h2, hne2, not_false_eq_true, if_true, List.nil_append]
+    · simp only [ne_eq, hd1e, not_false_eq_true, if_true, h2]
 
-/-- `FLOAT_RE` matched at a numeral of `repr` shape followed by a boundary matches exactly the numeral -/
-theorem matchFloat_pynum (n rest : List Char) (hn : PyNum n) (hb : Boundary rest) :
-    matchFloat (n ++ rest) = some (n, rest) := by
-  obtain ⟨sg, d1, fr, ex, rfl, hsg, hd1, hne1, hfr, hex⟩ := hn.ex
-  obtain ⟨a, as, rfl⟩ := List.exists_cons_of_ne_nil hne1
-  have ha : isDigit a = true := hd1 a (by simp)
-  have htail : (ex ++ rest) = [] ∨ ∃ c r, (ex ++ rest) = c :: r ∧ isDigit c = false ∧ c ≠ '.' := by
-    rcases hex with rfl | ⟨es, ed, rfl, _, _, _⟩
-    · rcases hb with rfl | ⟨c, r, rfl, hs⟩
+theorem head_of_num (p : NumParts) (hp : SvgNum p) (rest : List Char) :
+    ∃ c r, p.text ++ rest = c :: r ∧ isCmd c = false ∧
+      (p.sg = [] → isSign c = false ∧ p.d1 ++ p.fr ++ (p.ex ++ rest) = c :: r) := by
+  have hdig : ∀ a, isDigit a = true → isCmd a = false := by
+    intro a ha
+    unfold isDigit at ha
+    simp only [Bool.and_eq_true, decide_eq_true_eq] at ha
+    unfold isCmd
+    simp only [List.contains_eq_mem, decide_eq_false_iff_not]
+    intro hmem
+    have : a ∈ ['M', 'm', 'Z', 'z', 'L', 'l', 'H', 'h', 'V', 'v', 'C', 'c', 'S', 's', 'Q', 'q', 'T', 't', 'A', 'a'] := hmem
+    simp only [List.mem_cons, List.not_mem_nil, or_false] at this
+    rcases this with rfl | rfl | rfl | rfl | rfl | rfl | rfl | rfl | rfl | rfl | rfl | rfl | rfl | rfl | rfl | rfl |
+      rfl | rfl | rfl | rfl <;> exact absurd ha.2 (by decide)
+  have hbody : ∃ c r, p.d1 ++ p.fr ++ (p.ex ++ rest) = c :: r ∧ isCmd c = false ∧ isSign c = false := by
+    rcases hp.hne with h | ⟨d2, h, _⟩
+    · obtain ⟨a, as, e⟩ := List.exists_cons_of_ne_nil h
+      have ha : isDigit a = true := hp.hd1 a (by rw [e]; simp)
+      exact ⟨a, as ++ p.fr ++ (p.ex ++ rest), by rw [e]; simp, hdig a ha, digit_not_sign a ha⟩
+    · by_cases hd : p.d1 = []
+      · exact ⟨'.', d2 ++ (p.ex ++ rest), by rw [hd, h]; simp, by decide, by decide⟩
+      · obtain ⟨a, as, e⟩ := List.exists_cons_of_ne_nil hd
+        have ha : isDigit a = true := hp.hd1 a (by rw [e]; simp)
+        exact ⟨a, as ++ p.fr ++ (p.ex ++ rest), by rw [e]; simp, hdig a ha, digit_not_sign a ha⟩
+  obtain ⟨c, r, e, hc, hs⟩ := hbody
+  rcases hp.hsg with h | h | h
+  · exact ⟨c, r, by simp [NumParts.text, h, ← e, List.append_assoc], hc, fun _ => ⟨hs, e⟩⟩
+  · exact ⟨'-', p.d1 ++ p.fr ++ p.ex ++ rest, by simp [NumParts.text, h, List.append_assoc], by decide,
+      fun h' => by rw [h] at h'; simp at h'⟩
+  · exact ⟨'+', p.d1 ++ p.fr ++ p.ex ++ rest, by simp [NumParts.text, h, List.append_assoc], by decide,
+      fun h' => by rw [h] at h'; simp at h'⟩
+
+/-- `FLOAT_RE` matched at a number of the SVG grammar followed by an admissible continuation matches exactly
+the number -/
+theorem matchFloat_num (p : NumParts) (hp : SvgNum p) (rest : List Char) (hf : Follow p rest) :
+    matchFloat (p.text ++ rest) = some (p.text, rest) := by
+  have htail : (p.ex ++ rest) = [] ∨ ∃ c r, (p.ex ++ rest) = c :: r ∧ isDigit c = false ∧ (c = '.' → p.fr ≠ []) := by
+    rcases hp.hex with h | ⟨e, es, ed, he, h, _, _, _⟩
+    · rw [h]
+      rcases hf with rfl | ⟨c, r, rfl, h1, _, _, h4⟩
       · exact Or.inl rfl
-      · exact Or.inr ⟨c, r, rfl, hs.1, hs.2.1⟩
-    · exact Or.inr ⟨'e', _, rfl, by decide, by decide⟩
-  have hm := mantissa_scan (a :: as) fr (ex ++ rest) hd1 hne1 hfr htail
-  have hx := exponent_scan (sg ++ ((a :: as) ++ fr)) ex rest hb hex
-  have hstrip : stripSign (sg ++ (a :: as) ++ fr ++ ex ++ rest) = (sg, (a :: as) ++ fr ++ (ex ++ rest)) := by
-    rcases hsg with rfl | rfl
-    · simp only [List.nil_append, List.cons_append, List.append_assoc]
-      exact stripSign_digit a _ ha
-    · simp [stripSign, isSign]
+      · refine Or.inr ⟨c, r, rfl, h1, fun hc => ?_⟩
+        rcases h4 hc with h5 | h5
+        · exact h5
+        · exact absurd h h5
+    · refine Or.inr ⟨e, es ++ ed ++ rest, by rw [h]; simp, ?_, ?_⟩
+      · rcases he with rfl | rfl <;> decide
+      · rcases he with rfl | rfl <;> intro hc <;> exact absurd hc (by decide)
+  have hb : rest = [] ∨ ∃ c r, rest = c :: r ∧ isDigit c = false ∧ c ≠ 'e' ∧ c ≠ 'E' := by
+    rcases hf with h | ⟨c, r, h, h1, h2, h3, _⟩
+    · exact Or.inl h
+    · exact Or.inr ⟨c, r, h, h1, h2, h3⟩
+  have hm := mantissa_scan p.d1 p.fr (p.ex ++ rest) hp.hd1 hp.hfr hp.hne htail
+  have hx := exponent_scan (p.sg ++ (p.d1 ++ p.fr)) p.ex rest hb hp.hex
+  have hstrip : stripSign (p.text ++ rest) = (p.sg, p.d1 ++ p.fr ++ (p.ex ++ rest)) := by
+    rcases hp.hsg with h | h | h
+    · obtain ⟨c, r, e, _, hh⟩ := head_of_num p hp rest
+      obtain ⟨hs, e2⟩ := hh h
+      have : p.text ++ rest = p.d1 ++ p.fr ++ (p.ex ++ rest) := by simp [NumParts.text, h, List.append_assoc]
+      rw [this, e2, h]
+      simp [stripSign, hs]
+    · simp [NumParts.text, h, stripSign, isSign, List.append_assoc]
+    · simp [NumParts.text, h, stripSign, isSign, List.append_assoc]
   unfold matchFloat
   rw [hstrip]
   simp only [hm, hx]
-  simp [List.append_assoc]
+  simp [NumParts.text, List.append_assoc]
 
-/-- a string laid out from a token list: numerals followed by a boundary, separators anywhere -/
+/-- a string laid out from a token list: numbers followed by an admissible continuation, separators anywhere -/
 inductive Rendered : List RawTok → List Char → Prop
   | nil : Rendered [] []
   | sep (c : Char) (hc : isSep c = true) {ts : List RawTok} {s : List Char} : Rendered ts s → Rendered ts (c :: s)
   | cmd (c : Char) (hc : isCmd c = true) {ts : List RawTok} {s : List Char} :
       Rendered ts s → Rendered (.cmd c :: ts) (c :: s)
-  | num (n : List Char) (hn : PyNum n) {ts : List RawTok} {s : List Char} :
-      Rendered ts s → (s = [] ∨ ∃ c r, s = c :: r ∧ (isSep c = true ∨ isCmd c = true)) →
-      Rendered (.num n :: ts) (n ++ s)
+  | num (p : NumParts) (hp : SvgNum p) {ts : List RawTok} {s : List Char} :
+      Rendered ts s → Follow p s → Rendered (.num p.text :: ts) (p.text ++ s)
 
 theorem sep_not_cmd (c : Char) (h : isSep c = true) : isCmd c = false := by
   unfold isSep at h
@@ -185,28 +266,11 @@ theorem matchFloat_sep (c : Char) (r : List Char) (h : isSep c = true) : matchFl
     have h2 : isDigit ',' = false := by decide
     simp [matchFloat, stripSign, mantissa, h1, takeDigits, h2]
 
-theorem pynum_ne_nil (n : List Char) (hn : PyNum n) : n ≠ [] := by
-  obtain ⟨sg, d1, fr, ex, rfl, _, _, hne1, _, _⟩ := hn.ex
+theorem num_ne_nil (p : NumParts) (hp : SvgNum p) : p.text ≠ [] := by
+  obtain ⟨c, r, e, _, _⟩ := head_of_num p hp []
   intro h
-  simp only [List.append_eq_nil_iff] at h
-  exact hne1 h.1.1.2
-
-theorem pynum_head_not_cmd (n : List Char) (hn : PyNum n) : ∃ c r, n = c :: r ∧ isCmd c = false := by
-  obtain ⟨sg, d1, fr, ex, rfl, hsg, hd1, hne1, _, _⟩ := hn.ex
-  obtain ⟨a, as, rfl⟩ := List.exists_cons_of_ne_nil hne1
-  rcases hsg with rfl | rfl
-  · refine ⟨a, as ++ fr ++ ex, by simp, ?_⟩
-    have ha : isDigit a = true := hd1 a (by simp)
-    unfold isDigit at ha
-    simp only [Bool.and_eq_true, decide_eq_true_eq] at ha
-    unfold isCmd
-    simp only [List.contains_eq_mem, decide_eq_false_iff_not]
-    intro hmem
-    have : a ∈ ['M', 'm', 'Z', 'z', 'L', 'l', 'H', 'h', 'V', 'v', 'C', 'c', 'S', 's', 'Q', 'q', 'T', 't', 'A', 'a'] := hmem
-    simp only [List.mem_cons, List.not_mem_nil, or_false] at this
-    rcases this with rfl | rfl | rfl | rfl | rfl | rfl | rfl | rfl | rfl | rfl | rfl | rfl | rfl | rfl | rfl | rfl |
-      rfl | rfl | rfl | rfl <;> exact absurd ha.2 (by decide)
-  · exact ⟨'-', (a :: as) ++ fr ++ ex, by simp, by decide⟩
+  rw [List.append_nil] at e
+  rw [h] at e; simp at e
 
 /-- **The tokenizer reads back every rendered token list** (any fuel larger than the string). -/
 theorem lex_rendered (ts : List RawTok) (s : List Char) (h : Rendered ts s) (n : Nat) (hn : s.length < n) :
@@ -227,33 +291,48 @@ theorem lex_rendered (ts : List RawTok) (s : List Char) (h : Rendered ts s) (n :
       simp only [List.length_cons] at hn
       simp only [lex, hc, if_true]
       rw [ih n (by omega)]
-  | @num m hm ts s _ hbnd ih =>
-    have hb : Boundary s := by
-      rcases hbnd with rfl | ⟨c, r, rfl, hc | hc⟩
-      · exact Or.inl rfl
-      · exact Or.inr ⟨c, r, rfl, stops_of_sep c hc⟩
-      · exact Or.inr ⟨c, r, rfl, stops_of_cmd c hc⟩
-    obtain ⟨c, r, hcr, hnc⟩ := pynum_head_not_cmd m hm
+  | @num p hp ts s _ hf ih =>
+    obtain ⟨c, r, hcr, hnc, _⟩ := head_of_num p hp s
     cases n with
     | zero => simp at hn
     | succ n =>
-      have hmf := matchFloat_pynum m s hm hb
-      have hlen : s.length < (m ++ s).length := by
-        have := pynum_ne_nil m hm
-        have : 0 < m.length := List.length_pos_iff.mpr this
+      have hmf := matchFloat_num p hp s hf
+      have hlen : s.length < (p.text ++ s).length := by
+        have := num_ne_nil p hp
+        have : 0 < p.text.length := List.length_pos_iff.mpr this
         simp only [List.length_append]; omega
       have hs : s.length < n := by
         simp only [List.length_append] at hn hlen; omega
-      subst hcr
-      simp only [List.cons_append] at hmf hlen ⊢
+      rw [hcr] at hmf hlen ⊢
       simp only [lex, hnc, Bool.false_eq_true, if_false, hmf, hlen, if_true]
       rw [ih n hs]
 
-/-- **`_tokenize_path` inverts the layout of `Path.d()`** and of its respellings with extra separators. -/
+/-- **`_tokenize_path` inverts every legal layout of a token list**: the layout of `Path.d()`, extra separators,
+sign-as-separator, dot-as-separator, leading and trailing dots, `e`/`E` exponents -/
 theorem tokenize_rendered (ts : List RawTok) (s : List Char) (h : Rendered ts s) : tokenize s = ts :=
   lex_rendered ts s h _ (Nat.lt_succ_self _)
 
-/-- non-vacuity: `"M 1.5,-2e+16 L.."`-style input — here `M 1.5,-2e-7` -/
+/-- the numerals Python writes (`repr(float)`, `str(int)`: `-? digits (. digits)? (e [+-]? digits)?`) are numbers
+of the grammar, so the theorem covers what `Path.d()` emits -/
+theorem pyNum_svgNum (sg d1 d2 ex : List Char) (hsg : sg = [] ∨ sg = ['-']) (hd1 : Digits d1) (hne : d1 ≠ [])
+    (hd2 : Digits d2)
+    (hex : ex = [] ∨ ∃ es ed, ex = 'e' :: (es ++ ed) ∧ (es = [] ∨ es = ['-'] ∨ es = ['+']) ∧ Digits ed ∧ ed ≠ []) :
+    SvgNum ⟨sg, d1, if d2 = [] then [] else '.' :: d2, ex⟩ ∧ SvgNum ⟨sg, d1, [], ex⟩ := by
+  have hs : sg = [] ∨ sg = ['-'] ∨ sg = ['+'] := by rcases hsg with h | h <;> simp [h]
+  have he : ex = [] ∨ ∃ e es ed, (e = 'e' ∨ e = 'E') ∧ ex = e :: (es ++ ed) ∧ (es = [] ∨ es = ['-'] ∨ es = ['+']) ∧
+      Digits ed ∧ ed ≠ [] := by
+    rcases hex with h | ⟨es, ed, h1, h2, h3, h4⟩
+    · exact Or.inl h
+    · exact Or.inr ⟨'e', es, ed, Or.inl rfl, h1, h2, h3, h4⟩
+  refine ⟨⟨hs, hd1, ?_, Or.inl hne, he⟩, ⟨hs, hd1, Or.inl rfl, Or.inl hne, he⟩⟩
+  by_cases h : d2 = []
+  · simp [h]
+  · simp only [h, if_false]; exact Or.inr ⟨d2, rfl, hd2⟩
+
+/-! non-vacuity and pinned behaviour (kernel evaluation of the scanner) -/
 example : tokenize "M 1.5,-2e-7".toList = [.cmd 'M', .num "1.5".toList, .num "-2e-7".toList] := by decide
+example : tokenize "M1.e2-3.5.5+.5E+1L1.,2".toList =
+    [.cmd 'M', .num "1.e2".toList, .num "-3.5".toList, .num ".5".toList, .num "+.5E+1".toList, .cmd 'L', .num "1.".toList,
+     .num "2".toList] := by decide
 
 end SvgVerif.Props.C02Lexer
